@@ -30,7 +30,7 @@ func (r *Parser) ParseError(format string, a ...interface{}) error {
 
 func (r *Parser) NextBytes(n int) ([]byte, error) {
 	b := r.buf.Buffer(n)
-	_, err := r.Read(b)
+	_, err := io.ReadFull(r, b)
 	return b, err
 }
 
